@@ -217,6 +217,14 @@ LinearInY(p, e) ==
        c3 == Optimum([p EXCEPT !.y = [i \in 1..NPts(p) |-> 2 * p.y[i] - AltY(NPts(p))[i]]])
    IN \A a \in 1..NCoef(p.t, p.k) : c3[a] = QSub(QMul(OfInt(2), e.coeff[a]), c2[a])
 
+(* scale laws: the optimum does not change when every weight is multiplied by c > 0 and is           *)
+(* homogeneous in y; which fits are possible (support class, hence status and breakpoint mask)       *)
+(* depends on WHERE the positively weighted data lie, not on the magnitude of weights or values      *)
+ScaledW(p, c) == [p EXCEPT !.w = [i \in 1..NPts(p) |-> c * p.w[i]]]
+ScaledY(p, c) == [p EXCEPT !.y = [i \in 1..NPts(p) |-> c * p.y[i]]]
+WeightScaleInvariant(p, e) == WellPosed(ScaledW(p, 2)) /\ Optimum(ScaledW(p, 2)) = e.coeff
+YHomogeneous(p, e) == \A a \in 1..NCoef(p.t, p.k) : Optimum(ScaledY(p, -2))[a] = QMul(OfInt(-2), e.coeff[a])
+
 (* polynomials: pc = <<a0, a1, ...>> (integers), value by Horner over the rationals *)
 RECURSIVE PolyFrom(_, _, _)
 PolyFrom(pc, m, x) == IF m > Len(pc) THEN Zero ELSE QAdd(OfInt(pc[m]), QMul(x, PolyFrom(pc, m + 1, x)))
@@ -302,6 +310,8 @@ SupportOfData(t, k, x, w) ==
   [nord |-> k, S |-> Len(t) - 2 * k + 1,
    pc |-> [q \in 1..(2 * (Len(t) - 2 * k + 1) + 1) |->
              Cardinality({x[i] : i \in {m \in 1..Len(x) : w[m] > 0 /\ QPosOf(t, k, x[m]) = q}})]]
+
+SupportScaleInvariant(t, k, x, w) == SupportOfData(t, k, x, [i \in 1..Len(w) |-> 5 * w[i]]) = SupportOfData(t, k, x, w)
 
 (* ---------------- the machine ---------------- *)
 (* prob: the support problem (constant during a behaviour); bkmask: good knots; status: result of   *)
